@@ -179,9 +179,9 @@ class UdpInverterProtocol(InverterProtocol, asyncio.DatagramProtocol):
         logger.debug("Received error: %s", exc)
         try:
             self.response_future.set_exception(exc)
+            self._retry = 0
         except asyncio.InvalidStateError:
             logger.debug("Request already completed, error ignored.")
-        self._retry = 0
         self._close_transport()
 
     async def send_request(self, command: ProtocolCommand) -> Future:
@@ -331,9 +331,9 @@ class TcpInverterProtocol(InverterProtocol, asyncio.Protocol):
         logger.debug("Received error: %s", exc)
         try:
             self.response_future.set_exception(exc)
+            self._retry = 0
         except asyncio.InvalidStateError:
             logger.debug("Request already completed, error ignored.")
-        self._retry = 0
         self._close_transport()
 
     async def send_request(self, command: ProtocolCommand) -> Future:
